@@ -68,6 +68,12 @@ PROPS = {
         "assumptions": ["bias restricted to |bias| <= quarter quantum (a single +-quantum correction cannot reach the window otherwise)",
                         "reset boundary tolerates resetAfter vs resetAfter+1 (DESIGN 7.6)", "values from a boundary alphabet, not all 2^16"],
     },
+    "SELFTEST": {
+        "pkg": ".", "hdir": "dastard", "harness": DASTARD_COMMON + ["zz_verif_selftest_test.go"], "test": "TestVerifSelfTest",
+        "engines": ["vexp", "vhook"], "runtime_patch": True, "gomaxprocs": 1,
+        "quick": T(1, 60), "thorough": T(1, 60),
+        "rule": "engine B self-test: closed-form interleaving counts", "assumptions": [],
+    },
     "C18": {
         "pkg": "ringbuffer", "hdir": "ringbuffer", "harness": ["zz_verif_c18_test.go"], "test": "TestVerifC18",
         "quick": T(16, 60), "thorough": T(16, 600),
